@@ -76,7 +76,7 @@ func (st *State) stringConst(s string, t types.Type) Val {
 		st.fc.declare(key, "(Array Int Int)")
 	}
 	// defining facts are (re)asserted per path where used; cheap and keeps states independent
-	if len(s) <= 64 {
+	if len(s) <= 256 {
 		var fs []string
 		for i := 0; i < len(s); i++ {
 			fs = append(fs, sEq(sSel(key, sInt(int64(i))), sInt(int64(s[i]))))
@@ -623,6 +623,15 @@ func (st *State) coerce(v Val, t types.Type) Val {
 	if v.K == KNil {
 		return st.zeroVal(t)
 	}
+	if t != nil && classify(t) == tcIface && v.T != nil {
+		switch classify(v.T) {
+		case tcInt, tcBool, tcString, tcStruct, tcSlice, tcArray, tcFloat:
+			// storing a non-interface, non-pointer value in an interface: an opaque non-nil token
+			tok := st.fc.fresh("iface", "Int")
+			st.assume(sCmp(">", tok, "0"))
+			return vInt(tok, t)
+		}
+	}
 	if v.K == KInt && t != nil {
 		v.T = t
 	}
@@ -778,7 +787,7 @@ func (st *State) arith(op string, a, b Val, t types.Type, pos token.Pos, what st
 	case "-":
 		r = sSub(a.S, b.S)
 	case "*":
-		r = sMul(a.S, b.S)
+		r = st.mulDistribute(a.S, b.S)
 	case "/", "%":
 		st.oblige("div0", "divisor("+what+")", sNot(sEq(b.S, "0")), pos)
 		r = st.divmod(op, a.S, b.S, signed)
@@ -1086,12 +1095,14 @@ func (st *State) convert(v Val, from, to types.Type, pos token.Pos, what string)
 		if v.K == KNil {
 			return vInt("0", to)
 		}
-		if v.K == KInt {
+		if v.K == KInt && (cf == tcIface || cf == tcPtr) {
 			v.T = to
 			return v
 		}
-		// boxing: opaque non-nil token
-		return vInt(st.fc.fresh("iface", "Int"), to)
+		// boxing a non-interface value: opaque non-nil token
+		tok := st.fc.fresh("iface", "Int")
+		st.assume(sCmp(">", tok, "0"))
+		return vInt(tok, to)
 	case ct == tcTParam || ct == tcTParamSeq:
 		v.T = to
 		return v
@@ -1270,4 +1281,55 @@ func (st *State) singleBitOp(op, a, b string, bits uint, signed bool) (string, b
 	st.facts = st.facts.push(fmt.Sprintf("(forall ((g_j Int)) (! (=> (and (<= 0 g_j) (< g_j 64)) (= (g_bit %s g_j) %s)) :pattern ((g_bit %s g_j))))", rt, fmt.Sprintf(comb, x, y), rt))
 	st.fc.noteAssumption("word-wise and/or/and-not on 64-bit words: per-bit characterisation is the integer image of bit-vector lemmas proved in lemmas/bits.smt2")
 	return rt, true
+}
+
+// mulDistribute: x * phi where phi is (through SSA definitions) an ite-tree over numerals becomes an ite-tree of
+// linear products, which keeps the VC in linear arithmetic after state merging.
+func (st *State) mulDistribute(a, b string) string {
+	if t, ok := st.iteOfNumerals(b, 0); ok {
+		return distribute(a, t)
+	}
+	if t, ok := st.iteOfNumerals(a, 0); ok {
+		return distribute(b, t)
+	}
+	return sMul(a, b)
+}
+
+type iteTree struct {
+	cond       string
+	thenT, els *iteTree
+	num        string
+}
+
+func (st *State) iteOfNumerals(t string, depth int) (*iteTree, bool) {
+	if depth > 6 {
+		return nil, false
+	}
+	if _, ok := isNum(t); ok {
+		if depth == 0 {
+			return nil, false // plain constant: ordinary multiplication
+		}
+		return &iteTree{num: t}, true
+	}
+	if d, ok := st.fc.defs[t]; ok {
+		return st.iteOfNumerals(d, depth+1)
+	}
+	if strings.HasPrefix(t, "(ite ") {
+		args := topLevelArgs(t)
+		if len(args) == 3 {
+			a, ok1 := st.iteOfNumerals(args[1], depth+1)
+			b, ok2 := st.iteOfNumerals(args[2], depth+1)
+			if ok1 && ok2 {
+				return &iteTree{cond: args[0], thenT: a, els: b}, true
+			}
+		}
+	}
+	return nil, false
+}
+
+func distribute(x string, t *iteTree) string {
+	if t.num != "" {
+		return sMul(x, t.num)
+	}
+	return sIte(t.cond, distribute(x, t.thenT), distribute(x, t.els))
 }
